@@ -594,6 +594,10 @@ func sortedInts[V any](m map[int]V) []int {
 
 type customPanic struct{ code int }
 
+type uncomparablePanic struct{ codes []int }
+
+func (u uncomparablePanic) Error() string { return fmt.Sprint("uncomparable ", u.codes) }
+
 func misbehave(e *Env) {
 	g := G{e.S}
 	customRecover := g.Bool()
@@ -662,7 +666,7 @@ func misbehave(e *Env) {
 				}
 				switch {
 				case g.Pct(15):
-					h.panics[ev.seq] = g.Intn(5)
+					h.panics[ev.seq] = g.Intn(8)
 					panicsPlanned++
 				case h.bg && g.Pct(10):
 					h.blocks[ev.seq] = true
@@ -686,6 +690,12 @@ func misbehave(e *Env) {
 						m["x"] = 1
 					case 3:
 						panic(customPanic{q})
+					case 5:
+						panic(l.Args) // a value that cannot be compared with ==
+					case 6:
+						panic(map[string]int{"seq": q})
+					case 7:
+						panic(uncomparablePanic{[]int{q}})
 					default:
 						var p *hinfo
 						_ = p.id
